@@ -4,6 +4,7 @@
 -/
 import Nlmodel.Model.Pipeline
 import Nlmodel.Proofs.Lemmas.SimHOps
+import Nlmodel.Proofs.Lemmas.FloatTextBuiltin
 namespace Nl
 namespace C14
 
@@ -188,6 +189,25 @@ theorem C14_builtin_agrees {s0 : VM} {CS : List Const} {Γ : Sim.Gam} {μ : SimH
     | .err e _ => callBuiltin b ms m out = .error e
     | _ => True :=
   SimH.builtin_rel hinv b xs ms hl
+
+/-! ### number → text → number for floats (`Lemmas/FloatText*.lean`) -/
+
+/-- NUMBER → TEXT → NUMBER RETURNS THE SAME FLOAT, for EVERY float: the text `string(x)` prints (Rust's `Display for f64`:
+    the shortest digits that read back, no exponent notation, `inf`, `-inf`, `NaN`, `-0`) is read back by `float(..)` (Rust's
+    `f64::from_str`) as `x` itself — every finite value, both zeros, both infinities; a NaN reads back as NaN.  Ingredients:
+    `roundDigits` returns the correctly rounded k-digit decimal (its exponent estimate is at most 7 decades off, checked for all
+    2098 possible binary exponents by kernel evaluation); 17 significant digits always suffice (`F64T.digits17_ok`, from
+    2^53 < 10^16 and the nearest-property of the rounding); the printed text denotes the same rational as the digits
+    (`F64T.parseDec_render`) and the rounding depends on the rational only (`F64R.roundMag_congr`). -/
+theorem C14_float_text_roundtrip (x : F64.Bits) :
+    F64.parseDec (F64.toDecimal x) = some (if F64.isNaN x = true then F64.canonNaN else x) :=
+  F64T.parse_toDecimal_all x
+
+/-- the same through the builtins: `float(string(x)) = x` for every float that is not NaN -/
+theorem C14_float_of_string_of_float (x : F64.Bits) (hx : F64.isNaN x = false) :
+    builtinCore .string (.float x) = .ok (.str (F64.toDecimal x)) ∧
+    builtinCore .float (.str (F64.toDecimal x)) = .ok (.float x) :=
+  F64T.float_string_roundtrip x hx
 
 end C14
 end Nl
